@@ -17,7 +17,7 @@ from .. import seqterm as S
 from ..dispatch import flat
 from ..keysets import ids_subset
 from ..model import model_of
-from ..siblings import compare, get_siblings
+from ..siblings import compare, get_siblings, undecided
 from ..source import AnalysisError, calls_in, dotted, norm, qual_of
 
 NAME_MAPS = {"name_to_uuid", "uuid_to_name"}
@@ -155,6 +155,8 @@ def run(chk):
             # the SEL_inv term must also coincide with SEL
             if v.name != "SubqueryMarker":
                 t = sib.terms("cache", v)
+                if undecided(chk, "R3", t, f"{v.name} in cache"):
+                    continue
                 if t["SEL"]["nf"] != t["SEL_inv"]["nf"]:
                     good = False
                     why = f"name_to_uuid = {S.show(t['SEL']['nf'])} but uuid_to_name = {S.show(t['SEL_inv']['nf'])}"
@@ -193,6 +195,8 @@ def run(chk):
     n5 = 0
     for v in sib.verbs:
         t = sib.terms("cache", v)
+        if undecided(chk, "R5", t, f"{v.name} in cache"):
+            continue
         sel, part, cols = t["SEL"]["raw"], t["PART"]["raw"], t["COLS"]["raw"]
         sel_n = S.normalise(sel, v.name)
         part_n = S.normalise(part, v.name)
